@@ -33,13 +33,13 @@ Section CslJust.
         cbn [fst] in C2. apply N.eqb_eq in C2. subst. eauto.
     - destruct (N.eq_dec cc 0) as [-> | HC].
       + cbn [N.eqb] in H. chks H. split; [intros; contradiction | intros _].
-        apply existsb_exists in C. destruct C as [k [K1 K2]]. unfold gone_key in K2.
+        destruct (first_gone_spec _ _ _ C) as [k [Fg [K1 K2]]]. rewrite Fg in H. unfold gone_key in K2.
         destruct (step_keys _ _ _ _) as [s2 |] eqn:E; try discriminate. okinv H.
         destruct (kget s T k) eqn:Ek; try discriminate.
         * (* an unlocked key: it gets its rollback marker now *)
           exists k. rewrite (tr_lm s s' T SA), (tr_lamk s s' T SA). split; [apply Hks; auto |].
           split; [destruct (lamk s T k) eqn:El; auto; exfalso; eapply (l_nu _ _ L); eauto |]. left.
-          destruct (step_keys_char _ _ _ _ _ _ tr_csl_rb_ok tr_csl_rb_idem tr_csl_rb_total E k) as [[_ Ch] | [Ch _]]; [| contradiction].
+          destruct (step_keys_char _ _ _ _ _ _ tr_csl_rb_ok tr_csl_rb_idem tr_csl_rb_total E k) as [[_ Ch] | [Ch _]]; [| exfalso; apply Ch; left; reflexivity].
           change (kget (add_dlv s _) T k) with (kget s T k) in Ch. rewrite Ek in Ch. cbn in Ch. inversion Ch. auto.
         * apply existsb_exists in K2. destruct K2 as [[T' c] [W1 W2]]. cbn [fst snd] in W2. b2p. subst.
           apply (tr_NSa s s' T J SA). apply (wr_just 0 W1). auto.
